@@ -239,7 +239,7 @@ CHECKS = {
         "engine": "E1 clock + E2 simsched",
         "technique": "deterministic simulation: arrivals as events on the simulated clock, caller threads interleaved at the bucket mutexes by the seeded scheduler; window bounds, refund and fairness checked over the recorded history",
         "rule": "programs = (tenant rates from {1,2,3,10,100,1000}/s x 1-3 tenants, optional global rate from {1,2,5,20,150,2000}/s, 1-3 caller threads x 3-30 calls (3-60 thorough), arrival pattern per thread: burst, exact 1/rate spacing +-1 ns / +2 us, "
-                "long idles up to 1 h, one tenant hammering, uniform in [0, 2/rate]); 6 seeded schedules per program; every fifth program (<= 12 calls per thread) is issued as Query RPCs and, for a third of the calls, BulkSearch streams of 2-8 requests through the in-process server (interceptor -> handler -> enforce_rate_limit, admitted = not RESOURCE_EXHAUSTED 'rate limit exceeded') instead of calling the limiter directly. For every window of admitted calls of a tenant (and of all tenants for the global bucket), with times taken on the simulated clock "
+                "long idles up to 1 h, one tenant hammering, uniform in [0, 2/rate]); in 1 of 16 direct programs a crowd of 60 / 700 / 4200 / 5000 tenants nobody has seen before makes one call each in front of one or two of the calls (the limiter then tracks thousands of buckets; crowd admissions count towards the global bound); 6 seeded schedules per program; every fifth program (<= 12 calls per thread) is issued as Query RPCs and, for a third of the calls, BulkSearch streams of 2-8 requests through the in-process server (interceptor -> handler -> enforce_rate_limit, admitted = not RESOURCE_EXHAUSTED 'rate limit exceeded') instead of calling the limiter directly. For every window of admitted calls of a tenant (and of all tenants for the global bucket), with times taken on the simulated clock "
                 "before the first and after the last call: count <= burst + rate x dt + 1e-6. Single-caller programs additionally: a call refused while the tenant had >= 1 token (so refused by the global bucket) leaves available_tokens(tenant) "
                 "not lower than before; a call refused although conservative lower bounds on both the tenant's and the global bucket's tokens are >= 1 is a violation. evaluations = programs x schedules judged. "
                 "distinct_nontrivial = distinct (decision trace, admitted count) among runs with both admitted and refused calls.",
